@@ -269,7 +269,7 @@ pub fn exhaustive(ctx: &mut Ctx) {
 /// n = 5..8 random source orders / requests / live sets
 pub fn random(ctx: &mut Ctx) {
     let mut rng = ctx.rng(0xC08_2);
-    let cases = ctx.by_tier(12, 120);
+    let cases = ctx.by_tier(40, 300);
     let kinds: Vec<usize> = ctx.param.as_deref().map(|p| p.chars().map(|c| c.to_digit(10).unwrap() as usize).collect()).unwrap_or(vec![0, 1, 2]);
     let perms: Vec<Vec<Vec<u32>>> = (0..=7).map(all_perms).collect();
     for i in 0..cases {
@@ -319,4 +319,109 @@ pub fn single(ctx: &mut Ctx) {
     let mut rng = ctx.rng(1);
     let c = Case { n, src: &src, req: &req, seq, threads, tables, dead: vec![], gc_before: false, perms: &perms };
     dispatch(ctx, kind, &c, &mut rng);
+}
+
+/// Large diagram (>= 65536 nodes) on a manager with several workers: `set_var_order` takes the
+/// concurrent bubble sort. Oracle: requested order, full structural audit, sampled evaluations
+/// against the defining formula, canonicity of the rebuilt function, then a second reordering.
+pub fn large(ctx: &mut Ctx) {
+    use oxidd::{BooleanFunction, Function};
+    type F = oxidd::bdd::BDDFunction;
+    let mut rng = ctx.rng(0xC08_1A);
+    let k = 18u32; // f = OR_i (x_i & x_{i+k}) over 2k variables: about 2^k nodes under the identity order
+    let n = 2 * k;
+    let threads = 4u32;
+    let label = format!("c08large n={n} threads={threads} seed={} shard={}", ctx.seed, ctx.shard);
+    println!("@@{{\"t\":\"case\",\"case\":{}}}", crate::ctx::json_str(&label));
+    let mref = oxidd::bdd::new_manager(1 << 22, 1 << 16, threads);
+    mref.with_manager_exclusive(|m| {
+        m.add_vars(n);
+    });
+    let build = |upto: u32| -> F {
+        mref.with_manager_shared(|m| {
+            let mut f = F::f(m);
+            for i in 0..upto {
+                let c = F::var(m, i).unwrap().and(&F::var(m, i + k).unwrap()).unwrap();
+                f = f.or(&c).unwrap();
+            }
+            f
+        })
+    };
+    let partial: Vec<F> = (1..=k).map(build).collect();
+    let formula = |upto: u32, a: u64| (0..upto).any(|i| (a >> i) & 1 == 1 && (a >> (i + k)) & 1 == 1);
+    let approx = mref.with_manager_shared(|m| m.approx_num_inner_nodes());
+    let exact = mref.with_manager_shared(|m| m.num_inner_nodes());
+    ctx.count_max("max_large_diagram_nodes", exact as u64);
+    if approx < 65536 {
+        // set_var_order would take the sequential path: the run says nothing about the concurrent one
+        println!("@@{{\"t\":\"note\",\"sig\":\"c08_large\",\"minimized\":\"approx_num_inner_nodes {approx} < 65536\"}}");
+        return;
+    }
+    ctx.count("concurrent_sort_preconditions_met", 1);
+    let rounds = ctx.by_tier(2, 6);
+    let mut cur: Vec<u32> = (0..n).collect();
+    for round in 0..rounds {
+        // permute a window of 6 variables in the middle (large levels), different each round
+        let lo = rng.range((k - 6) as usize, (k + 1) as usize) as u32;
+        let mut window: Vec<u32> = cur[lo as usize..(lo + 6) as usize].to_vec();
+        let before = window.clone();
+        while window == before {
+            rng.shuffle(&mut window);
+        }
+        let req = window.clone();
+        mref.with_manager_exclusive(|m| oxidd_reorder::set_var_order(m, &req));
+        let after = current_order(&mref);
+        ctx.eval();
+        if !consistent(&after, &req) {
+            ctx.violation("bdd:large:set_var_order:requested-relative-order", format!("{label} round {round}: request {req:?} after {after:?}"));
+        }
+        // unnamed variables must not move when only a window is permuted (minimal swaps)
+        let mut expect = cur.clone();
+        expect[lo as usize..(lo + 6) as usize].copy_from_slice(&req);
+        ctx.eval();
+        if after != expect {
+            ctx.violation("bdd:large:set_var_order:not-minimal-swaps", format!("{label} round {round}: expected {expect:?} got {after:?}"));
+        }
+        cur = after;
+        // structure
+        let s = mref.with_manager_exclusive(|m| crate::audit::structural(&*m, crate::audit::Rule::Bdd, &|_| false));
+        ctx.evals(s.nodes as u64);
+        ctx.count("nodes_audited", s.nodes as u64);
+        for (clause, detail) in s.errs.iter().take(5) {
+            ctx.violation(&format!("bdd:large:structure:{clause}"), format!("{label} round {round}: {detail}"));
+        }
+        // semantics on sampled assignments (eval and independent interpretation)
+        for (idx, f) in partial.iter().enumerate() {
+            if idx % 4 != 0 && idx + 1 != partial.len() {
+                continue;
+            }
+            let upto = idx as u32 + 1;
+            for _ in 0..400 {
+                let a = rng.next() & ((1u64 << n) - 1);
+                let want = formula(upto, a);
+                let got = f.eval((0..n).map(|v| (v, (a >> v) & 1 == 1)));
+                let it = f.with_manager_shared(|m, e| interp_edge::<Bdd>(m, e, a as usize));
+                ctx.eval();
+                if got != want || it != want {
+                    ctx.violation("bdd:large:after set_var_order:handle-changed-function", format!("{label} round {round}: partial {upto} assignment {a:#x}: eval {got} interp {it} want {want}"));
+                    break;
+                }
+            }
+        }
+        // canonicity: rebuilding yields the identical handles
+        for upto in [1u32, k / 2, k] {
+            let g = build(upto);
+            ctx.eval();
+            if g != partial[upto as usize - 1] {
+                ctx.violation("bdd:large:set_var_order:rebuilt-function-differs-from-surviving-handle", format!("{label} round {round}: partial {upto}"));
+            }
+        }
+        ctx.count("large_reorderings", 1);
+        ctx.distinct(("large", ctx.shard, round, req));
+    }
+    drop(partial);
+    mref.with_manager_shared(|m| m.gc());
+    let left = mref.with_manager_shared(|m| m.num_inner_nodes());
+    ctx.check(left == 0, "bdd:large:gc:nodes-left-after-dropping-everything", || format!("{label}: {left}"));
+    ctx.sample(|| format!("{label}: f = OR_i(x_i & x_(i+18)) over 36 variables ({exact} nodes), {rounds} x permute a window of 6 middle variables with set_var_order on {threads} workers"));
 }
